@@ -59,7 +59,7 @@ var vC02 = []string{"C02."}
 func verifC02a() { // repeated demands from several scopes, Export
 	verifRunProfile(&vProfile{name: "C02a", clauses: vC02,
 		maxScopes: 2, nRegs: 2, maxParams: 1, maxResults: 1, pForms: 1, rForms: 1, names: 1, export: true,
-		faults: 1, nInvokes: 3, invParams: 1, distinct: true, noMissing: true, lateScopes: true})
+		faults: 1, nInvokes: 2, invParams: 1, distinct: true, noMissing: true, lateScopes: true})
 }
 
 func verifC02b() { // decorator input and group membership as demand paths
@@ -70,7 +70,7 @@ func verifC02b() { // decorator input and group membership as demand paths
 
 func verifC02c() { // groups
 	verifRunProfile(&vProfile{name: "C02c", clauses: vC02,
-		maxScopes: 2, nRegs: 2, maxParams: 1, maxResults: 1, pForms: 2, rForms: 1, names: 1, groups: true,
+		maxScopes: 1, nRegs: 2, maxParams: 1, maxResults: 1, pForms: 2, rForms: 1, names: 1, groups: true,
 		faults: 1, nInvokes: 2, invParams: 1, distinct: true, noMissing: true})
 }
 
@@ -86,7 +86,7 @@ func verifC03a() {
 func verifC03b() { // optional edges, groups, soft groups
 	verifRunProfile(&vProfile{name: "C03b", clauses: vC03,
 		maxScopes: 1, nRegs: 2, maxParams: 1, maxResults: 1, pForms: 2, rForms: 1, names: 1, optional: true, groups: true, soft: true,
-		faults: 1, nInvokes: 2, invParams: 1, distinct: true})
+		faults: 1, nInvokes: 1, invParams: 1, distinct: true})
 }
 
 // ---- C04: missing dependencies
@@ -125,24 +125,36 @@ var vC08 = []string{"C08.", "C01.arg", "C01.zero"}
 func verifC08a() {
 	verifRunProfile(&vProfile{name: "C08a", clauses: vC08,
 		maxScopes: 3, nRegs: 2, maxParams: 1, maxResults: 1, pForms: 1, rForms: 1, names: 1, export: true,
-		faults: 1, nInvokes: 2, invParams: 1, lateScopes: true})
+		faults: 1, nInvokes: 1, invParams: 1, lateScopes: true})
 }
 
 // ---- C10 / C11: value groups
 var vC10 = []string{"C10."}
 
-func verifC10a() {
+func verifC10a() { // placement in the scope tree, Export
 	verifRunProfile(&vProfile{name: "C10a", clauses: vC10,
-		maxScopes: 2, nRegs: 2, maxParams: 0, maxResults: 1, pForms: 2, rForms: 2, names: 1, groups: true, flatten: true, export: true,
+		maxScopes: 2, nRegs: 2, maxParams: 0, maxResults: 1, pForms: 2, rForms: 2, names: 1, groups: true, export: true,
+		faults: 1, nInvokes: 1, invParams: 1})
+}
+
+func verifC10b() { // flatten, a feeder added between two requests
+	verifRunProfile(&vProfile{name: "C10b", clauses: vC10,
+		maxScopes: 1, nRegs: 1, maxParams: 0, maxResults: 1, pForms: 2, rForms: 2, names: 1, groups: true, flatten: true,
 		faults: 1, nInvokes: 2, invParams: 1, lateRegs: 1})
 }
 
 var vC11 = []string{"C11."}
 
-func verifC11a() {
+func verifC11a() { // soft group next to a hard dependency in one object
 	verifRunProfile(&vProfile{name: "C11a", clauses: vC11,
-		maxScopes: 1, nRegs: 2, maxParams: 0, maxResults: 2, pForms: 2, rForms: 2, names: 1, groups: true, soft: true,
-		faults: 1, nInvokes: 2, invParams: 2})
+		maxScopes: 1, nRegs: 1, maxParams: 0, maxResults: 2, pForms: 2, rForms: 2, names: 1, groups: true, soft: true,
+		faults: 1, nInvokes: 1, invParams: 2})
+}
+
+func verifC11b() { // an earlier Invoke runs feeders, a later soft consumer sees them
+	verifRunProfile(&vProfile{name: "C11b", clauses: vC11,
+		maxScopes: 1, nRegs: 2, maxParams: 0, maxResults: 1, pForms: 2, rForms: 2, names: 1, groups: true, soft: true,
+		faults: 1, nInvokes: 2, invParams: 1})
 }
 
 // ---- C12: decoration
@@ -150,7 +162,7 @@ var vC12 = []string{"C12."}
 
 func verifC12a() {
 	verifRunProfile(&vProfile{name: "C12a", clauses: vC12,
-		maxScopes: 2, nRegs: 3, maxParams: 1, maxResults: 1, pForms: 1, rForms: 1, names: 1, decorators: 2,
+		maxScopes: 2, nRegs: 2, maxParams: 1, maxResults: 1, pForms: 1, rForms: 1, names: 1, decorators: 2,
 		faults: 1, nInvokes: 2, invParams: 1, distinct: true, noMissing: true})
 }
 
@@ -168,7 +180,7 @@ func init() {
 		"verifC02a": verifC02a, "verifC02b": verifC02b, "verifC02c": verifC02c,
 		"verifC03a": verifC03a, "verifC03b": verifC03b, "verifC04a": verifC04a, "verifC04b": verifC04b,
 		"verifC07a": verifC07a, "verifC07b": verifC07b, "verifC08a": verifC08a, "verifC10a": verifC10a,
-		"verifC11a": verifC11a, "verifC12a": verifC12a, "verifC13a": verifC13a,
+		"verifC11a": verifC11a, "verifC11b": verifC11b, "verifC10b": verifC10b, "verifC12a": verifC12a, "verifC13a": verifC13a,
 	} {
 		verifEntries[n] = f
 	}
@@ -179,8 +191,8 @@ var vC05s = []string{"C05s.", "C02.reentry"}
 
 func verifC05sa() { // no defer: every Provide is checked
 	verifRunProfile(&vProfile{name: "C05sa", clauses: vC05s,
-		maxScopes: 2, nRegs: 3, maxParams: 1, maxResults: 1, pForms: 1, rForms: 1, names: 1, export: true,
-		faults: 1, nInvokes: 1, invParams: 1, distinct: true, lateScopes: true})
+		maxScopes: 2, nRegs: 2, maxParams: 1, maxResults: 1, pForms: 1, rForms: 1, names: 1, export: true,
+		faults: 1, nInvokes: 1, invParams: 1, distinct: true})
 }
 
 func verifC05sb() { // DeferAcyclicVerification
@@ -191,7 +203,7 @@ func verifC05sb() { // DeferAcyclicVerification
 
 func verifC05sc() { // group and optional edges
 	verifRunProfile(&vProfile{name: "C05sc", clauses: vC05s,
-		maxScopes: 2, nRegs: 2, maxParams: 1, maxResults: 1, pForms: 2, rForms: 1, names: 1, groups: true, optional: true, deferOpt: 2,
+		maxScopes: 1, nRegs: 2, maxParams: 1, maxResults: 1, pForms: 2, rForms: 1, names: 1, groups: true, optional: true, deferOpt: 2,
 		faults: 1, nInvokes: 1, invParams: 1, distinct: true})
 }
 
@@ -200,7 +212,7 @@ var vC09 = []string{"C09.", "C01.arg", "C01.zero", "C04.err"}
 
 func verifC09a() { // names and result objects, duplicates allowed
 	verifRunProfile(&vProfile{name: "C09a", clauses: vC09,
-		maxScopes: 2, nRegs: 2, maxParams: 0, maxResults: 2, pForms: 2, rForms: 2, names: 2, export: true,
+		maxScopes: 1, nRegs: 2, maxParams: 0, maxResults: 2, pForms: 2, rForms: 2, names: 2,
 		faults: 1, nInvokes: 1, invParams: 1})
 }
 
